@@ -14,6 +14,11 @@ def observe(case):
         d = c19.compare_impl_dump(plain, dres) if case.get("order") is None else c19.compare_dump(plain, dres, case["order"], set(case["dumped"]), case.get("mode", "attr"))
         return {"dump_diff": d, "with_dump": [it.get("msg", it.get("text", ""))[:300] for it in dres.get("items", [])],
                 "without_dump": [it.get("text", "")[:300] for it in plain.get("items", [])]}
+    if case.get("kind") == "same_gen":
+        o = case["other"]
+        a, b = common.expand_many([(case.get("mode", "attr"), case.get("attr", ""), case["item"]), (o["mode"], o["attr"], o["item"])])
+        gen = lambda r, mode: [common.norm(it.get("text", it.get("msg", ""))) for it in r.get("items", [])[(1 if mode == "attr" else 0):]]
+        return {"gen_a": gen(a, case.get("mode", "attr")), "gen_b": gen(b, o["mode"])}
     res = common.expand_many([(case.get("mode", "attr"), case.get("attr", ""), case["item"])])[0]
     errs = common.compile_errors(res)
     impls = [it for it in res.get("items", []) if it.get("kind") == "impl"]
@@ -24,7 +29,8 @@ def observe(case):
             rej.add(m.group(1) or m.group(2))
     return {"rejected_traits": sorted(rej), "panic": res.get("panic"), "parse_ok": res.get("parse_ok"), "errors": errs, "rejected": bool(errs) or "panic" in res,
             "where": {common.norm(i["trait"]): sorted(common.norm(w) for w in i["where"]) for i in impls},
-            "item0": res["items"][0].get("text", "") if res.get("items") else "", "out": res.get("out", "")}
+            "item0": res["items"][0].get("text", "") if res.get("items") else "", "out": res.get("out", ""),
+            "impls": [re.sub(r"<.*$", "", common.norm(i["trait"])).rsplit("::", 1)[-1] for i in impls]}
 
 
 def markers_of(case, obs):
@@ -51,6 +57,24 @@ def disagrees(case, obs):
         return got != [sorted(common.norm(m) for m in case["expected_markers"]), sorted(case["expected_field_types"])]
     if k == "dump":
         return obs["dump_diff"] not in (None, "skip")
+    if k == "impl_order":
+        got = [t for n, t in enumerate(obs["impls"]) if n == 0 or obs["impls"][n - 1] != t]
+        return got != case["expected"]
+    if k == "matches":
+        import re
+        return (re.search(case["regex"], obs[case.get("where", "out")], re.S) is not None) != case["expected"]
+    if k == "reject_msg":
+        if obs["rejected"] != case["expected_reject"]:
+            return True
+        return bool(case.get("message")) and not any(case["message"] in e for e in obs["errors"])
+    if k == "same_gen":
+        return obs["gen_a"] != obs["gen_b"]
+    if k == "where_exact":
+        import re
+        for tr, ws in obs["where"].items():
+            if re.sub(r"<.*$", "", tr).rsplit("::", 1)[-1] == case["trait"]:
+                return sorted(ws) != sorted(common.norm(w) for w in case["expected"])
+        return True
     if k == "where_markers_of":
         import re
         for tr, ws in obs["where"].items():
